@@ -112,6 +112,7 @@ func init() {
 			out = append(out, Instance{Scenario: "c12_afterrebalance", Params: mustJSON(AfterRebParams{OldServer: true}), Bound: 1, Shards: 8, Note: "server below 5.5.0 (serial close): the end of the last vBucket against the tail of Close(), all single deviations"})
 			out = append(out, Instance{Scenario: "c12_afterrebalance", Params: mustJSON(AfterRebParams{OldServer: true, CloseFault: true}), Bound: 0, Shards: 8, Note: "serial close with a failing close-stream request: ends in the next session are still processed"})
 			out = append(out, Instance{Scenario: "c12_afterrebalance", Params: mustJSON(struct{}{}), Bound: 1, Shards: 8, Note: "the stop rule in the sessions after 1..2 real rebalances"})
+			out = append(out, Instance{Scenario: "c12_finite_rebalance", Params: mustJSON(struct{}{}), Bound: 0, Note: "a finite run across a rebalance with a slow application hook: the re-opened session's vBuckets end while the hook runs - the client still stops on its own"})
 			out = append(out, Instance{Scenario: "c12_duringopen", Params: mustJSON(struct{}{}), Bound: b - 1, Shards: 4, Note: "a stream ends while Open() still waits for another vBucket (start-up and re-open after a rebalance)"})
 			for f := 1; f <= 5; f++ {
 				out = append(out, Instance{Scenario: "c12_reopenfail", Params: mustJSON(ReopenFailParams{Failures: f}), Bound: 0})
@@ -799,6 +800,64 @@ func init() {
 					vrt.Failf("%s: after %d of 2 assigned vBuckets ended for good: client stop signalled = %v", desc, i+1, stopped)
 				}
 			}
+		}}
+	}
+}
+
+// c12_finite_rebalance: a finite run goes through a rebalance, and the application's AfterRebalanceEnd hook is
+// slow (10 s): the vBuckets of the re-opened session reach their end bound while the hook is still running. "The
+// client stops on its own if and only if every assigned vBucket stream has ended for good": it does, with every
+// event up to the sampled high seqno delivered.
+func init() {
+	scenarios["c12_finite_rebalance"] = func(raw json.RawMessage) *vrt.Scenario {
+		return &vrt.Scenario{Name: "c12_finite_rebalance", FreeChoices: true, NoTimerAlt: true, MaxSteps: 400000, Main: func() {
+			resetGlobals()
+			hook := []string{"ARE", "BRE", "ARS", "none"}[vrt.Choose(4, true, "slow-hook")]
+			o := EnvOpts{Vbs: 2, CheckpointType: "auto", CheckpointInterval: 1000 * time.Second, Mode: config.DcpModeFinite, WrapMeta: true, RebalanceDelay: 2 * time.Second}
+			c := NewCluster(&o)
+			for vb := uint16(0); vb < 2; vb++ {
+				c.Append(vb, marker(1, 3), symbolPacket("M", 1), symbolPacket("M", 2), symbolPacket("M", 3))
+			}
+			e := NewEnv(c, o)
+			e.Cons.AutoAck = true
+			// the consumer is busy with the first event of vb1 for 5 s: the first session is in mid-run when the
+			// rebalance arrives
+			first := true
+			e.Cons.OnConsume = func(d *Delivered) {
+				if first && d.Vb == 1 {
+					first = false
+					vrt.Sleep(5 * time.Second)
+				}
+			}
+			e.EH.On = func(n string) {
+				if n == hook {
+					vrt.Sleep(10 * time.Second) // a slow application hook
+				}
+			}
+			vrt.GoNamed("opener", func() { e.Stream.Open() })
+			vrt.Sleep(time.Second)
+			vrt.GoNamed("rebalancer", func() { e.Stream.Rebalance() })
+			vrt.Sleep(3 * time.Minute)
+			vrt.Quiesce()
+			desc := fmt.Sprintf("finite run, a rebalance 1 s into it, slow %s hook", hook)
+			for vb := uint16(0); vb < 2; vb++ {
+				seen := map[uint64]bool{}
+				for _, d := range e.Cons.Events {
+					if d.Vb == vb {
+						seen[d.Seq] = true
+					}
+				}
+				for s := uint64(1); s <= 3; s++ {
+					if !seen[s] {
+						vrt.Failf("%s: event %d of vb%d (at or below the sampled high seqno 3) was never delivered", desc, s, vb)
+					}
+				}
+			}
+			if !vrt.Closed(e.StopCh) {
+				_, active := e.Stream.GetMetric()
+				vrt.Failf("%s: every vBucket has reached its end bound (active streams %d), the client did not stop on its own", desc, active)
+			}
+			vrt.SetOutcome(desc)
 		}}
 	}
 }
